@@ -256,7 +256,17 @@ pub(crate) fn wrap_single_line_slow_path<'a>(
     for words in wrapped_words {
         let last_word = match words.last() {
             None => {
-                lines.push(Cow::from(""));
+                // An empty line still carries its indent.
+                let indent = if lines.is_empty() {
+                    options.initial_indent
+                } else {
+                    options.subsequent_indent
+                };
+                lines.push(if indent.is_empty() {
+                    Cow::from("")
+                } else {
+                    Cow::Owned(indent.to_owned())
+                });
                 continue;
             }
             Some(word) => word,
